@@ -14,13 +14,18 @@ RULE = ("op histories (add through the registry, add to a named batch, flush, ca
         "batch.value()/error(), set_value/set_error on items and batches, is_flushed/is_cancelled/is_empty/is_computed, registry "
         "query) of length 0..30 over a harness BatchBase/BatchItemBase pair whose _flush executes a generated flush script per "
         "batch (set all / some / no items, item errors, raise Exception or BaseException after k actions, create requests while "
-        "flushing, double-set, cancel from inside the body) and over the built-in DebugBatch/DebugBatchItem; 70% mostly-valid "
+        "flushing, double-set, cancel from inside the body, re-entrant requests while the body runs: the body or an on_computed subscriber "
+        "of an item it has just set asks an item of the batch being flushed for value()/error(), the body calls self.flush() or "
+        "self.value()/error(), caught or propagating) and over the built-in DebugBatch/DebugBatchItem; 70% mostly-valid "
         "stream, 30% malformed stream (double flush, cancel/add/set after finish, unknown ids); thorough adds every op word of "
-        "length 3 over a 13-op alphabet x 7 scripts; distinct = different (flavour, scripts, op list); non-trivial = at least one "
+        "length 3 over a 13-op alphabet x 9 scripts; distinct = different (flavour, scripts, op list); non-trivial = at least one "
         "completing op on an existing batch/item and at least one op after it")
 TRUSTED = ["qcore.events.EventHook.safe_trigger / qcore.errors.reraise are exercised, not modelled separately",
            "the harness batch's _try_switch_active_batch follows DebugBatch's discipline (replace the registry entry iff it is self)"]
-ASSUMPTIONS = ["flush bodies do not re-enter flush()/value() of the batch being flushed or of its items (unbounded recursion in the code)",
+ASSUMPTIONS = ["requests made from inside a flush concern the batch being flushed and its own items; a body / subscriber asking an item of ANOTHER "
+               "pending batch (a nested flush of a different batch) and subscribers installed from outside the body are not generated",
+               "batch.value()/error() asked while the body runs is modelled with the repaired behaviour (BatchingError); the unrepaired code "
+               "runs the body again: known finding, on such a case only that site is reported",
                "_cancel, _try_switch_active_batch and on_computed subscribers do not raise (batching.py documents the second; a raising "
                "_cancel is outside the statement's quantifier, see docs/C11.md)",
                "debug options: default, or ENABLE_COMPLEX_ASSERTIONS off (a third of the histories); KEEP_DEPENDENCIES and DUMP_* off; one thread"]
@@ -55,8 +60,10 @@ def gen_reentrant(rng):
     """One re-entrant request made while the body runs: the body (or an on_computed subscriber of an item it
     sets) asks an item of the batch being flushed for value()/error(), or the body calls self.flush()."""
     q = rng.random()
-    if q < 0.45:
+    if q < 0.40:
         return {"ARead": [N(rng.randrange(0, 4)), _kd(rng), _bool(rng)]}
+    if q < 0.48:
+        return {"AReadBatch": [_kd(rng), _bool(rng)]}
     if q < 0.85:
         return {"ASetRead": [N(rng.randrange(0, 3)), _val(rng), N(rng.randrange(0, 4)), _kd(rng)]}
     return {"AReflush": [_bool(rng)]}
@@ -336,6 +343,10 @@ CORPUS.insert(1, _mk("H", [[{"ARead": [N(1), "KError", "true"]}, {"ARead": [N(0)
 CORPUS.insert(2, _mk("H", [[_S(0, 3), {"ARead": [N(1), "KValue", "false"]}, "ASetAll"]],
                      [_A(1), _A(2), {"OItemError": [N(1)]}, {"OBatchError": [N(0)]}, {"OItemValue": [N(0)]}, {"OIsCancelled": [N(0)]}]))
 
+# the body asks the batch itself for error() between two writes (known finding on the unrepaired tree: the body runs again)
+CORPUS.insert(3, _mk("H", [[_S(0, 3), {"AReadBatch": ["KError", "true"]}, _S(1, 4)]],
+                     [_A(1), _A(2), {"OFlush": [N(0)]}, {"OItemValue": [N(1)]}, {"OBatchError": [N(0)]}]))
+
 # expensive assertions switched off: a body that sets some / none of its items still leaves no item pending
 CORPUS.append(_case("H", [[]], [_A(1), {"OFlush": [N(0)]}, {"OItemComputed": [N(0)]}, {"OItemError": [N(0)]}, {"OItemValue": [N(0)]},
                                 {"OBatchValue": [N(0)]}], {"corpus": True}, {"ENABLE_COMPLEX_ASSERTIONS": False}))
@@ -359,7 +370,7 @@ def _arg(o):
     return [] if isinstance(o, str) else next(iter(o.values()))
 
 
-REENTRANT = ("ARead", "AReflush", "ASetRead")
+REENTRANT = ("ARead", "AReflush", "ASetRead", "AReadBatch")
 COMPLETING_B = ("OFlush", "OCancel", "OBatchValue", "OBatchError", "OBatchSet", "OBatchSetErr")
 COMPLETING_I = ("OItemValue", "OItemError", "OItemSet", "OItemSetErr")
 
@@ -464,6 +475,17 @@ def monitors(c, io, build):
             seen.add((clause, site))
             fs.append(dict(clause=clause, site="%s:%s" % (flavour, site), msg=msg))
 
+    # ---- value()/error() of the batch itself asked while its flush body runs must not run the body again.  When it
+    #      does, everything else the case shows (second run's writes, FutureIsAlreadyComputed outcomes, a cancelled
+    #      batch) is a consequence of that one nested run: it is reported once, at this site, and nothing else is
+    #      evaluated on the case.
+    for rd in io.get("reads", []):
+        if rd["what"].startswith("batch-") and rd["runs1"] != rd["runs0"]:
+            hit("flush-runs-body-once", "reentrant-%s:%s:body-ran-again" % (rd["via"], rd["what"]),
+                "%s() of batch %d was asked by its own flush body while that body was running: the body ran %d more time(s) nested inside the first" % (
+                    rd["what"].split("-")[1], rd["b"], rd["runs1"] - rd["runs0"]))
+    if fs:
+        return fs
     sets = {}
     set_at = []
     for i, o in io["sets"]:
@@ -688,6 +710,16 @@ def monitors(c, io, build):
             hit("flush-runs-body-once", "%s:body-ran-again" % tag,
                 "%s asked %s while the flush body of batch %d was running: the body ran %d more time(s)" % (
                     via, ("item %d for its %s()" % (i, what)) if what != "flush" else "the batch to flush()", b, rd["runs1"] - rd["runs0"]))
+        if what.startswith("batch-"):
+            if rd["batch_out"] is not None:
+                want = _report("OBatchValue" if what == "batch-value" else "OBatchError", rd["batch_out"])
+                if r != want:
+                    hit("stable-outcome", "%s:%s" % (tag, _short(r)), "batch %d (finished, %s) asked for %s by its body gave %s" % (b, rd["batch_out"], what, r))
+            elif r != {"RRaise": [-5]}:
+                hit("second-flush", "%s:%s" % (tag, _short(r)), "%s of batch %d asked while its flush body runs gave %s instead of raising BatchingError" % (what, b, r))
+            if inner:
+                hit("second-flush", "%s:state-changed" % tag, "%s of batch %d asked while its flush body runs fired callbacks / hooks: %s" % (what, b, inner[:4]))
+            continue
         if what == "flush":
             if r != {"RRaise": [-5]}:
                 hit("second-flush", "%s:%s" % (tag, _short(r)), "flush() of batch %d called while its flush body runs gave %s instead of raising BatchingError" % (b, r))
